@@ -2,11 +2,14 @@
 //! pieces through the real StyleSheetTransformer.  Oracle (property C19): every source-map entry's source
 //! position lies inside the source, on a character boundary, and the source text there starts a token --
 //! it is not whitespace and not the start of a comment; generated columns are non-decreasing.
+//! Second family: `@import` with every subset of layer()/supports()/media clauses under an import sign -- the wrappers
+//! `@layer x{`, `@supports(..){`, `@media ..{` are synthesised by one clause each ("a token synthesised by a rewrite
+//! points at the construct that triggered it"), so each closing `}` must carry the source position of its own `{`.
 use crate::Outcome;
 use glass_easel_stylesheet_compiler::{StyleSheetOptions, StyleSheetTransformer};
 
 const PIECES: &[&str] = &[".a", "/*c*/", " ", "{", "}", "color:red", ";", ":is(", ")", "calc(1px + ", "2px", "1rpx", ",", "#b", "[x]", "\n", "\u{1F600}", "width:", "@media (min-width:1px)"];
-const BOUND: &str = "all concatenations of <= 4 pieces from 19 directed pieces (selectors, comments, whitespace, blocks, calc, rpx, astral), default options and prefix+rpx options";
+const BOUND: &str = "all concatenations of <= 4 pieces from 19 directed pieces (selectors, comments, whitespace, blocks, calc, rpx, astral), default options and prefix+rpx options; plus 8 clause subsets x 3 separators x 2 trailers of @import under an import sign";
 
 fn u16_to_byte(line: &str, col: usize) -> Option<usize> {
     let mut u = 0;
@@ -44,10 +47,60 @@ fn check(css: &str) -> Option<(String, String)> {
     }
     None
 }
+fn check_import(css: &str) -> Option<(String, String)> {
+    let opts = StyleSheetOptions { import_sign: Some("S".into()), ..Default::default() };
+    let t = StyleSheetTransformer::from_css("p.wxss", css, opts);
+    let out = t.output();
+    let mut text = Vec::new();
+    out.write(&mut text).ok()?;
+    let text = String::from_utf8(text).ok()?;
+    let sm = out.extract_source_map();
+    let at = |col: usize| -> Option<(u32, u32)> {
+        sm.tokens().find(|t| t.get_dst_line() == 0 && t.get_dst_col() as usize == col).map(|t| (t.get_src_line(), t.get_src_col()))
+    };
+    if !text.is_ascii() || text.contains('"') || text.contains('\'') { return None; }
+    let mut stack = vec![];
+    for (i, c) in text.char_indices() {
+        if c == '{' { stack.push(i); }
+        if c == '}' {
+            let Some(o) = stack.pop() else { return Some((format!("output {:?} is unbalanced", text), "balanced brackets".into())) };
+            let (a, b) = (at(o), at(i));
+            if a.is_none() || b.is_none() || a != b {
+                return Some((format!("output {:?}: `{{` at column {} maps to {:?} but its `}}` at column {} maps to {:?}", text, o, a, i, b), "a synthesised closing bracket carries the source position of its own opening bracket".into()));
+            }
+        }
+    }
+    None
+}
+fn import_inputs() -> Vec<String> {
+    let mut v = vec![];
+    for mask in 0..8u32 {
+        for sep in [" ", "\n  ", " /*c*/ "] {
+            for trailer in ["", "\n.b{top:0}"] {
+                let mut s = String::from("@import './a'");
+                if mask & 1 != 0 { s += sep; s += "layer(a)"; }
+                if mask & 2 != 0 { s += sep; s += "supports(color: red)"; }
+                if mask & 4 != 0 { s += sep; s += "print and (min-width: 10px)"; }
+                s += ";"; s += trailer;
+                v.push(s);
+            }
+        }
+    }
+    v
+}
 pub fn search() -> Outcome {
     std::panic::set_hook(Box::new(|_| {}));
     let n = PIECES.len();
     let mut count = 0u64;
+    for css in import_inputs() {
+        count += 1;
+        let c2 = css.clone();
+        match std::panic::catch_unwind(move || check_import(&c2)) {
+            Ok(Some((got, want))) => return Outcome { found: true, input: css, observed: got, expected: want, evaluations: count, bound: BOUND.into() },
+            Err(_) => return Outcome { found: true, input: css, observed: "panic".into(), expected: "no panic".into(), evaluations: count, bound: BOUND.into() },
+            _ => {}
+        }
+    }
     for d in 1..=4usize {
         let mut idx = vec![0usize; d];
         loop {
@@ -67,7 +120,8 @@ pub fn search() -> Outcome {
     Outcome::none(count, BOUND)
 }
 pub fn run(input: &str) -> Outcome {
-    match check(input) {
+    let r = if input.starts_with("@import") { check_import(input).or_else(|| check(input)) } else { check(input) };
+    match r {
         Some((got, want)) => Outcome { found: true, input: input.into(), observed: got, expected: want, evaluations: 1, bound: "single input".into() },
         None => Outcome { found: false, input: input.into(), observed: String::new(), expected: String::new(), evaluations: 1, bound: "single input".into() },
     }
